@@ -112,6 +112,11 @@ func c14Templates() map[string][]gen.Node {
 		"block":             {&gen.NBlock{Name: "blk", Body: []gen.Node{tx("in block")}}},
 		"macro-and-call": {&gen.NMacro{Name: "mc", Params: []string{"p", "q", "r"}, Body: []gen.Node{pr(nm("p")), tx("/"), pr(nm("q"))}},
 			pr(&gen.EMethod{X: nm("_self"), Name: "mc", Args: []gen.Expr{num(1), str("two")}})},
+		// elements found by number, one after the other: every dot is a token of its own however close the digits stand
+		"numbered-elements": {tx("["), pr(&gen.EAttr{X: &gen.EAttr{X: nm("grid"), Key: num(1), Dot: true}, Key: num(0), Dot: true}), tx(","),
+			pr(&gen.EAttr{X: &gen.EAttr{X: &gen.EAttr{X: nm("cube"), Key: num(0), Dot: true}, Key: num(1), Dot: true}, Key: num(1), Dot: true}), tx(","),
+			pr(&gen.EBin{Op: "+", L: &gen.EAttr{X: &gen.EAttr{X: nm("grid"), Key: num(0), Dot: true}, Key: num(1), Dot: true}, R: &gen.ENum{Text: "1.5"}}), tx(","),
+			pr(&gen.EBin{Op: "..", L: &gen.EAttr{X: &gen.EAttr{X: nm("grid"), Key: num(0), Dot: true}, Key: num(0), Dot: true}, R: num(3)}), tx("]")},
 		"import":  {&gen.NImport{Tpl: str("lib"), Alias: "L"}, pr(&gen.EMethod{X: nm("L"), Name: "lm", Args: []gen.Expr{nm("s")}})},
 		"from":    {&gen.NFrom{Tpl: str("lib"), Names: [][2]string{{"lm", "renamed"}, {"lm2", "lm2"}}}, pr(&gen.ECall{Fn: "renamed", Args: []gen.Expr{num(5)}}), pr(&gen.ECall{Fn: "lm2"})},
 		"include": {&gen.NInclude{Tpl: str("part"), With: &gen.EHash{Keys: []gen.Expr{nm("w")}, Vals: []gen.Expr{num(1)}}, Only: true}, &gen.NInclude{Tpl: bin("~", str("pa"), str("rt"))}, &gen.NInclude{Tpl: str("part"), Only: true}},
@@ -197,7 +202,7 @@ func c14Aux() map[string]*gen.Template {
 }
 
 func c14Ctx() map[string]interface{} {
-	return map[string]interface{}{"n": 3, "s": "abc", "t": true, "f": false, "arr": []int{1, 2, 3}, "h": map[string]interface{}{"k": []int{7}}, "obj": gen.NewThing(), "w": "W",
+	return map[string]interface{}{"n": 3, "s": "abc", "t": true, "f": false, "arr": []int{1, 2, 3}, "h": map[string]interface{}{"k": []int{7}}, "obj": gen.NewThing(), "w": "W", "grid": [][]int{{1, 2}, {3, 4}}, "cube": [][][]int{{{1, 2}, {3, 4}}},
 		"index": false, "inx": 2, "order": []int{1, 2}, "isle": 0, "nota": "andx", "andy": "and", "b": 9, "nb": 20, "orx": 2, "andx": 3, "xory": 1, "order2": 4}
 }
 
